@@ -378,6 +378,9 @@ def run(cx):
     # 3. random module sets and histories
     rng = cx.sub_rng("random")
     run_batch(cx, [cc.gen_history(rng) for _ in range(cx.n(1800, 40000))], "r")
+    # 4. directed: amend targets that are imports only, amended in every order by the failing module
+    rng = cx.sub_rng("amend")
+    run_batch(cx, [cc.gen_amend_history(rng) for _ in range(cx.n(500, 8000))], "a")
     cx.sample(hs[0].spec()[:400])
     cx.exhaustive = False
 
